@@ -316,3 +316,33 @@ impl Network {
         }
     }
 }
+
+#[cfg(feature = "verif")]
+pub(crate) use handshake::Handshake as VerifHandshake;
+
+/// Wrapper of the inbound handshake for the `verif` facade.
+#[cfg(feature = "verif")]
+pub(crate) async fn verif_handshake_inbound(
+    ctx: &ctx::Ctx,
+    me: &validator::SecretKey,
+    genesis: validator::GenesisHash,
+    stream: &mut noise::Stream,
+) -> Result<validator::PublicKey, String> {
+    handshake::inbound(ctx, me, genesis, stream)
+        .await
+        .map_err(|e| format!("{e:#}"))
+}
+
+/// Wrapper of the outbound handshake for the `verif` facade.
+#[cfg(feature = "verif")]
+pub(crate) async fn verif_handshake_outbound(
+    ctx: &ctx::Ctx,
+    me: &validator::SecretKey,
+    genesis: validator::GenesisHash,
+    stream: &mut noise::Stream,
+    peer: &validator::PublicKey,
+) -> Result<(), String> {
+    handshake::outbound(ctx, me, genesis, stream, peer)
+        .await
+        .map_err(|e| format!("{e:#}"))
+}
